@@ -246,10 +246,79 @@ def rule_macro(chk):
                "find_single_macro can return a macro whose macro_disabled flag is set (recursive macros expand forever)", where(fsm))
 
 
+def rule_combinators_eval(chk, plb, po):
+    """parse_list_base / parse_optional evaluated with scripted element and separator parsers over short token lists:
+    a list ends before a trailing separator, an element that fails after consuming input fails the list, an element
+    that fails without consuming input ends it, an empty list is accepted only when allowed; the loop always ends.
+    Returns True when readable."""
+    import interp as I
+    f = chk.facts
+
+    def err(rest):
+        return I.Enum("Result", "Err", {"0": I.Enum("ParseErrorContext", None, {"0": rest, "1": I.Opaque("reason"), "2": I.Opaque("where")})})
+
+    def element(a):
+        inp = a[0]
+        if inp and inp[0] == 1:
+            return I.Enum("Result", "Ok", {"0": (inp[1:], "e")})
+        if inp and inp[0] == 2:
+            return err(inp[1:])         # consumed a token, then failed
+        return err(inp)                 # no progress
+
+    def sep(a):
+        inp = a[0]
+        if inp and inp[0] == 0:
+            return I.Enum("Result", "Ok", {"0": (inp[1:], ())})
+        return err(inp)
+
+    def outcome(r):
+        if isinstance(r, I.Enum) and r.variant == "Ok":
+            rest, v = r.fields["0"]
+            if isinstance(v, I.Enum) and v.adt == "Option":
+                v = "Some" if v.variant == "Some" else "None"
+            return ("Ok", list(rest), v)
+        if isinstance(r, I.Enum) and r.variant == "Err":
+            return ("Err",)
+        return repr(r)
+    ip = I.Interp(f, max_depth=8)
+    ip.max_loop = 50
+    try:
+        lst = {ae: ip.apply(plb, [sep, element, ae]) for ae in (True, False)}
+        opt = ip.apply(po, [element])
+        cases = [([1, 0, 1, 0, 1, 9], ("Ok", [9], ["e", "e", "e"])), ([1, 0, 9], ("Ok", [0, 9], ["e"])), ([1], ("Ok", [], ["e"])), ([1, 0, 2, 5], ("Err",)), ([2, 5], ("Err",)), ([1, 1], ("Ok", [1], ["e"]))]
+        bad = []
+        for ae in (True, False):
+            for inp, want in cases + [([9], ("Ok", [9], []) if ae else ("Err",)), ([], ("Ok", [], []) if ae else ("Err",))]:
+                got = outcome(ip.call_callable(lst[ae], [list(inp)], 0))
+                if got != want:
+                    bad.append("list(allow_empty=%s) on %s gives %s, must be %s" % (ae, inp, (got,), (want,)))
+        chk.ob("C08.loop/parse_list_base", not bad, "list combinator: 16 scripted inputs end with the right result; the loop stops on zero-progress failure and fails on partial failure" if not bad else
+               "parse_list_base: %s" % bad[0], where(plb))
+        bad = []
+        for inp, want in (([1, 7], ("Ok", [7], "Some")), ([9, 1], ("Ok", [9, 1], "None")), ([2, 1], ("Err",)), ([], ("Ok", [], "None"))):
+            got = outcome(ip.call_callable(opt, [list(inp)], 0))
+            if got != want:
+                bad.append("optional on %s gives %s, must be %s" % (inp, (got,), (want,)))
+        chk.ob("C08.loop/parse_optional", not bad, "optional: None only on zero-progress failure, partial failures propagate" if not bad else "parse_optional: %s" % bad[0], where(po))
+        return True
+    except I.Unknown as e:
+        if "does not end" in str(e) or "panicking" in str(e):
+            chk.ob("C08.loop/parse_list_base", False, "the list combinator does not terminate / aborts on a scripted input: %s" % e, where(plb))
+            return True
+        return False
+
+
 def rule_loop(chk):
     f = chk.facts
     plb = chk.anchor("C08.anchor/parse_list_base", f.fn("parse_list_base", "rssl_parser"), "parse_list_base")
-    if plb:
+    po0 = f.fn("parse_optional", "rssl_parser")
+    evaluated = False
+    if plb and po0:
+        try:
+            evaluated = rule_combinators_eval(chk, plb, po0)
+        except Exception as e:
+            chk.note("parser combinators not evaluated: %r" % (e,))
+    if plb and not evaluated:
         ok = False
         for cb in f.closures_of(plb["path"]):
             for lp in F.exprs(cb["thir"], "Loop"):
@@ -270,7 +339,7 @@ def rule_loop(chk):
         chk.ob("C08.loop/parse_list_base", ok, "list loop: advance on Ok, break on zero-progress Err, return on partial Err" if ok else
                "parse_list_base's loop no longer distinguishes zero-progress failure (break) from partial failure (return)", where(plb))
     po = chk.anchor("C08.anchor/parse_optional", f.fn("parse_optional", "rssl_parser"), "parse_optional")
-    if po:
+    if po and not evaluated:
         ok = False
         for cb in f.closures_of(po["path"]):
             for m in F.exprs(cb["thir"], "Match"):
